@@ -9,7 +9,8 @@ by `decide` that every site regenerated from the current source is one of `sites
 map walk, or a sort removed from a reviewed one (its record changes), breaks the obligation until it
 has been reviewed here; a site that disappears (map replaced by a slice) does not.
 Reviewed against the pinned tree 1598eac + fixes/C08-less-strict-order.patch (touches none of these
-sites) + fixes/C08-entropy-sum-order.patch (edgeEntropyScore).
+sites) + fixes/C08-entropy-sum-order.patch (edgeEntropyScore) + fixes/C08-weblist-unprocessed-sorted.patch
+(splitIntoRanges).
 -/
 namespace PV.Spec.MapRangesExpected
 open PV.MapRange
@@ -77,9 +78,12 @@ def reviewed : List Reviewed := [
   -- line 549: range addrMap   then: SORT:sort.Slice, return
   { site := { file := "internal/report/source.go", fn := "sourcePrinter.splitIntoRanges", mapType := "map[uint64]internal/report.addrInfo", kind := .append, sink := "append:[]uint64", sorted := true, returned := true },
     verdict := .sortedHere },
-  -- line 549: range addrMap   then: return
-  { site := { file := "internal/report/source.go", fn := "sourcePrinter.splitIntoRanges", mapType := "map[uint64]internal/report.addrInfo", kind := .append, sink := "append:[]uint64", sorted := false, returned := true },
-    verdict := .orderIrrelevant "weblist only: handleUnprocessed stores each address under its own map key and addStack accumulates per-address sums" },
+  -- (splitIntoRanges also collects the addresses WITHOUT an object file; since
+  -- fixes/C08-weblist-unprocessed-sorted.patch that slice is sorted as well, so its record equals the
+  -- one above.  Before it the slice was returned in map order and handleUnprocessed appended to the
+  -- per-line instruction lists in that order: `weblist` HTML varied from run to run — the earlier
+  -- verdict "order irrelevant" for that site was WRONG (found by build-C10, reproduced by the
+  -- -weblist jobs of the CLI oracle).  The unsorted record is deliberately NOT in this list.)
   -- line 629: range sp.files   then: return, SORT:sort.Slice
   { site := { file := "internal/report/source.go", fn := "sourcePrinter.generate", mapType := "map[string]*internal/report.sourceFile", kind := .append, sink := "append:[]*internal/report.sourceFile", sorted := true, returned := true },
     verdict := .sortedHere },
